@@ -289,6 +289,61 @@ func runC38b(env *kernel.Env) {
 	if env.Failed() {
 		return
 	}
+	// waiting: with a holder in place, GET_LOCK(name, 2) does not give up before two
+	// simulated seconds and GET_LOCK(name, -1) waits without limit until the holder lets go
+	var live []*cl
+	for _, c := range clients {
+		if c.ready && !c.dead && !c.Busy && c.Conn != nil {
+			live = append(live, c)
+		}
+	}
+	if len(live) >= 2 && waiting == 0 && T.Bool(1, 2) {
+		a, b := live[0], live[1]
+		run := func(c *cl, q string) *Res {
+			r := &Res{}
+			c.Start(c.QueryOp(q, nil, false, r), nil)
+			return r
+		}
+		first := func(r *Res) string {
+			if r.Err != nil || len(r.Rows) != 1 {
+				return fmt.Sprintf("error %v", r.Err)
+			}
+			return r.Rows[0][0]
+		}
+		ra := run(a, "SELECT GET_LOCK('zz', 0)")
+		w.Settle(base, 5*time.Second)
+		env.Kind("wait-scenario")
+		if first(ra) != "1" {
+			env.Fail("free-lock-is-granted", "free-lock-refused", "GET_LOCK('zz', 0) on a name nobody uses returned %s", first(ra))
+			return
+		}
+		t0 := w.Now()
+		rb := run(b, "SELECT GET_LOCK('zz', 2)")
+		w.Settle(base, 30*time.Second)
+		if el := w.Now() - t0; first(rb) != "0" || el < 2*time.Second {
+			env.Fail("timeout-not-early", "early-or-wrong-timeout", "GET_LOCK('zz', 2) while %s holds zz returned %s after %v simulated", a.Name, first(rb), el)
+			return
+		}
+		rb = run(b, "SELECT GET_LOCK('zz', -1)")
+		for i := 0; i < 40; i++ {
+			w.Settle(base, 250*time.Millisecond)
+			w.Sched.Advance(250 * time.Millisecond)
+		}
+		synctest.Wait()
+		if !b.Busy && b.Task.Idle() || len(rb.Rows) > 0 || rb.Err != nil {
+			env.Fail("negative-timeout-waits", "infinite-wait-gave-up", "GET_LOCK('zz', -1) while %s holds zz came back (%s) after %v simulated; a negative timeout waits without limit", a.Name, first(rb), w.Now()-t0)
+			return
+		}
+		rr := run(a, "SELECT RELEASE_LOCK('zz')")
+		w.Settle(base, 10*time.Second)
+		if first(rr) != "1" || first(rb) != "1" {
+			env.Fail("waiter-gets-freed-lock", "waiter-not-served", "after %s released zz (-> %s) the waiting GET_LOCK('zz', -1) of %s returned %s", a.Name, first(rr), b.Name, first(rb))
+			return
+		}
+		rr = run(b, "SELECT RELEASE_LOCK('zz')")
+		w.Settle(base, 10*time.Second)
+		env.Probe("wait-scenario-checked")
+	}
 	// closing phase: everybody disconnects; then every lock must be free
 	for _, c := range clients {
 		// (a reset connection is closed too: the driver's own goroutines must end)
